@@ -419,3 +419,67 @@ theorem run_parkedInv (njob : Nat) (evs : List Ev) : ParkedInv (run njob evs) :=
   | cons e rest ih => intro s h; exact ih _ (step_parkedInv s e h)
 
 end StepupModel.B.JobLoop
+
+namespace StepupModel.B.JobLoop
+
+theorem popHash_none_all_claimed (l : List Nat) : ∀ (s : JL), (popHash s l).2 = none → ∀ i ∈ l, i ∈ s.claimed := by
+  induction l with
+  | nil => intro s _ i hi; simp at hi
+  | cons a rest ih =>
+    intro s
+    simp only [popHash]
+    split
+    · rename_i hc
+      intro h i hi
+      rcases List.mem_cons.mp hi with rfl | hr
+      · simpa using hc
+      · exact ih s h i hr
+    · simp
+
+/-- The pass in which `job_loop` returns has asked the scheduler for a job and got none, with no
+task running, no task left to retire and no unclaimed hash job queued (for `njob ≥ 1`, which
+`ServeConfig` enforces). -/
+theorem iter_ret_polled (s : JL) (hn : 1 ≤ s.njob) (h : (iter s).2 = .ret) :
+    (iter s).1.polls = s.polls + 1 ∧ s.offers = [] ∧ s.running = [] ∧ (∀ i ∈ s.queue, i ∈ s.claimed) := by
+  have hret := iter_ret s h
+  unfold iter at h hret ⊢
+  have hf := handleDone_frame s.done.reverse s
+  generalize handleDone s s.done.reverse = r at h hret hf
+  obtain ⟨s1, b⟩ := r
+  obtain ⟨hr, hnj, hq, hc, ho, -, -, hp, -⟩ := hf
+  simp only at hr hnj hq hc ho hp
+  cases b
+  · simp only at h hret ⊢
+    by_cases hlt : s1.running.length < s1.njob
+    · rw [if_pos hlt] at h hret ⊢
+      have hpn := popHash_none_all_claimed s1.queue s1
+      have hpf := popHash_frame s1.queue s1
+      generalize popHash s1 s1.queue = q at h hret hpn hpf
+      obtain ⟨s2, o⟩ := q
+      cases o with
+      | some i => simp at h
+      | none =>
+        simp only at h hret ⊢
+        obtain ⟨p1, -, -, p4, -, -, -, -, -, -, p11⟩ := hpf
+        simp only at p1 p4 p11
+        split at h
+        · simp at h
+        · rename_i heq
+          simp only [heq] at hret ⊢
+          have t := tail_frame { s2 with polls := s2.polls + 1 }
+          have hrun : s2.running = [] := by have := hret.1; rw [t.2.1] at this; exact this
+          refine ⟨?_, ?_, ?_, ?_⟩
+          · unfold tail; split
+            · simp [p11, hp]
+            · split <;> simp [p11, hp]
+          · rw [← ho, ← p4]; exact List.head?_eq_none_iff.mp heq
+          · rw [← hr, ← p1]; exact hrun
+          · intro i hi; rw [← hc]; exact hpn rfl i (by rw [hq]; exact hi)
+    · exfalso
+      rw [if_neg hlt] at hret
+      have t := tail_frame s1
+      have : s1.running = [] := by have := hret.1; rw [t.2.1] at this; exact this
+      rw [this] at hlt; simp at hlt; omega
+  · simp at h
+
+end StepupModel.B.JobLoop
